@@ -47,14 +47,18 @@ func (t *subscribeTransaction) Suback(mqSuback *mqPkts.SubackPacket) error {
 	// MQTT Return codes 0-2 means "Success, QoS 0-2" but in MQTT-SN only 0
 	// means success!
 	var returnCode snPkts1.ReturnCode
+	// Granted QoS is the MQTT return code itself (0-2), not the QoS bits of the
+	// MQTT fixed header (which are always zero in SUBACK).
+	var grantedQOS uint8
 	if mqSuback.ReturnCodes[0] <= 2 {
 		returnCode = snPkts1.RC_ACCEPTED
+		grantedQOS = mqSuback.ReturnCodes[0]
 		t.Success()
 	} else {
 		returnCode = snPkts1.RC_NOT_SUPPORTED
 		t.Fail(fmt.Errorf("MQTT SUBACK return code: %d", mqSuback.ReturnCodes[0]))
 	}
-	snPkt := snPkts1.NewSuback(t.topicID, returnCode, mqSuback.Qos)
+	snPkt := snPkts1.NewSuback(t.topicID, returnCode, grantedQOS)
 	snPkt.SetMessageID(mqSuback.MessageID)
 	return t.handler.snSend(snPkt)
 }
